@@ -329,7 +329,9 @@ func genScenario(e *env, r *rng, id string, withFaultyPre bool) scenario {
 	add := func(k string) { s.Kinds = append(s.Kinds, k) }
 	nonce := fmt.Sprintf("%x", r.next()&0xffff)
 	oldContent := func(rel string) string {
-		switch r.intn(4) {
+		switch r.intn(5) {
+		case 4:
+			return e.skill[rel] // same bytes as the new version, but possibly another mode or file type
 		case 0:
 			return "OLD " + rel + " " + nonce + "\n"
 		case 1:
@@ -362,7 +364,11 @@ func genScenario(e *env, r *rng, id string, withFaultyPre bool) scenario {
 	case 6:
 		add("same_install")
 		for _, rel := range e.rels {
-			s.Pre = append(s.Pre, preOp{Op: "write", Path: skill + "/" + rel, Data: e.skill[rel], Mode: 0o644})
+			m := uint32(0o644)
+			if r.chance(1, 2) {
+				m = pick(r, modes) // e.g. restored from a backup under another umask
+			}
+			s.Pre = append(s.Pre, preOp{Op: "write", Path: skill + "/" + rel, Data: e.skill[rel], Mode: m})
 		}
 	case 7:
 		add("crash_leftovers")
@@ -385,7 +391,11 @@ func genScenario(e *env, r *rng, id string, withFaultyPre bool) scenario {
 		add("older_install_symlinked_file")
 		for i, rel := range e.rels {
 			if i == 0 {
-				s.Pre = append(s.Pre, preOp{Op: "write", Path: s.Cwd + "/elsewhere.md", Data: "target of a symlink " + nonce, Mode: 0o644})
+				tgt := "target of a symlink " + nonce
+				if r.chance(1, 2) {
+					tgt = e.skill[rel]
+				}
+				s.Pre = append(s.Pre, preOp{Op: "write", Path: s.Cwd + "/elsewhere.md", Data: tgt, Mode: 0o644})
 				s.Pre = append(s.Pre, preOp{Op: "symlink", Path: skill + "/" + rel, Data: s.Cwd + "/elsewhere.md"})
 				continue
 			}
